@@ -204,6 +204,8 @@ def check_builtin_operands(ctx, prog, tag):
     ctx.floor("C12.M10 builtin sites iterating / printing a raw operand" + tag, n, 8)
     n11 = check_conversion_twins(ctx, prog, tag)
     ctx.floor("C12.M11 argument conversions that ask the mode" + tag, n11, 4)
+    n12 = check_operator_operands(ctx, prog, tag)
+    ctx.floor("C12.M12 operands of total operators in the interpreter" + tag, n12, 20)
     # M10c: where the operands come as a collection (`Rest<Value>`) the helper is applied in a loop; that loop must reach
     # every operand: it is left only when the iterator is exhausted or with an error.  A `break` out of it (say, at the
     # first operand of unknown length) leaves the operands behind it unasked (seed C12-8).
@@ -246,6 +248,61 @@ def check_builtin_operands(ctx, prog, tag):
                        not bad, "the loop in which %s asks the undefined behaviour about each operand can be left early (a `break`): "
                        "operands behind that point are used without the check, so an undefined one is iterated silently under "
                        "Strict / SemiStrict" % f.path.split("::")[-1], f.where(bad[0]) if bad else f.where(c.bb))
+
+
+OPERATOR_CALLS = ("<minijinja::value::Value as core::cmp::PartialEq>::eq", "<minijinja::value::Value as core::cmp::PartialEq>::ne",
+                  "core::cmp::PartialOrd::lt", "core::cmp::PartialOrd::le", "core::cmp::PartialOrd::gt", "core::cmp::PartialOrd::ge",
+                  "minijinja::value::ops::contains", "minijinja::value::ops::string_concat")
+
+
+def check_operator_operands(ctx, prog, tag):
+    """M12 (round 10, seed C12-10): the comparison / membership / concatenation operators are total functions on values -
+    they never fail by themselves, so whether an undefined operand is an error is decided by the mode helper the
+    interpreter applies to it first.  In every arm of the dispatch, each of the two operands handed to such an operator
+    (traced to the stack pop it came from) is the argument of a dominating `assert_value_not_undefined` /
+    `assert_iterable`.  A chained comparison is left early when a link is false, so "the next link checks it" is not an
+    argument: the check belongs to the link that uses the value."""
+    from .. import inline as _inl, arms as _arms, cfg as _cfg
+    INSTR = "minijinja::compiler::instructions::Instruction"
+    ev = prog.fns.get("minijinja::vm::Executor::eval_impl")
+    if ev is None:
+        return 0
+    ev = _inl.view(prog, ev, keep=("assert_value_not_undefined", "assert_iterable", "pop", "contains", "string_concat", "eq", "ne",
+                                   "lt", "le", "gt", "ge"))
+    sw = _arms.enum_switches(prog, ev, INSTR)
+    if not sw:
+        return 0
+    regs = _arms.arm_regions(prog, ev, sw[0][0], INSTR)
+    dom = _cfg.dominators(ev)
+    helpers = [c for c in ev.calls() if c.name.endswith(("::assert_value_not_undefined", "::assert_iterable"))]
+    n = 0
+    for c in ev.calls():
+        if c.name not in OPERATOR_CALLS or len(c.args) < 2:
+            continue
+        arm = sorted(v for v, r in regs.items() if c.bb in r)
+        if not arm:
+            continue
+        reg = regs[arm[0]]
+        # only operands that come off the operand stack (both sides of a binary operator instruction)
+        keys = []
+        for a in c.args[:2]:
+            os_ = flow.origins(ev, a, within=reg) if "c" not in a else []
+            keys.append({o.key() for o in os_ if o.kind == "call" and o.call.name.endswith("::pop")})
+        if not all(keys):
+            continue
+        for i, ks in enumerate(keys):
+            n += 1
+            asked = False
+            for h in helpers:
+                if h.bb in dom.get(c.bb, ()) and h.bb in reg and len(h.args) >= 2:
+                    hk = {o.key() for o in flow.origins(ev, h.args[1], within=reg) if o.kind == "call"}
+                    if hk & ks:
+                        asked = True
+            ctx.ob("C12.M12.operator-operand-is-asked-first", "%s%s|%s#%d" % (tag, "|".join(arm), c.name.rsplit("::", 1)[-1], i), asked,
+                   "operand %d of %s in the %s handler reaches the operator without a dominating assert_value_not_undefined / "
+                   "assert_iterable on it: an undefined operand is compared silently in the strict modes" % (i, c.name.rsplit("::", 1)[-1], "|".join(arm)),
+                   ev.where(c.bb))
+    return n
 
 
 def run(ctx):
